@@ -138,6 +138,8 @@ def run_case(case):
         import warnings
         warnings.simplefilter("ignore")
         comm = MPI.COMM_WORLD
+        if case["sched_seed"] % 3 == 0:
+            comm = comm.Split(0, -rank)          # the same processes numbered in the opposite order to the world communicator
         w = MPI.current_world()
         try:
             h = lay.getLayoutHandler(comm, dict(layouts), list(nprocs), eta)
